@@ -3,54 +3,56 @@ import BctVerif.Lemmas.MeasuresBasic
 import BctVerif.Lemmas.MeasuresAlg
 import BctVerif.Lemmas.MeasuresSim
 import BctVerif.Lemmas.MeasuresCore
-import BctVerif.Lemmas.MeasuresDist
 import BctVerif.Lemmas.MeasuresFlow
-import BctVerif.Lemmas.MeasuresSpectral
+import BctVerif.Lemmas.MeasuresCluster
+import BctVerif.Lemmas.MeasuresDistX
+import BctVerif.Lemmas.MeasuresReach
+import BctVerif.Lemmas.MeasuresBetween
+import BctVerif.Lemmas.MeasuresCoreX
+import BctVerif.Lemmas.MeasuresComp
+import BctVerif.Lemmas.MeasuresPartition
+import BctVerif.Lemmas.MeasuresWalks
 /-!
 # C04 — graph measures are equivariant under renumbering of the nodes
 
 `permA σ A` is the renumbered matrix `A[np.ix_(σ,σ)]` (`(permA σ A).get i j = A.get (σ i) (σ j)`),
-`permVec σ v` the renumbered per-node vector `v[σ]`.  For every measure of `Model/Measures.lean`
-(the executable model that the check runs against the real bct functions) and **every** `n`, every
-permutation `σ : Equiv.Perm (Fin n)` and every integer matrix:
+`permVec σ v` the renumbered per-node vector `v[σ]`.  Every theorem is for **every** `n`, every permutation
+`σ : Equiv.Perm (Fin n)` and every matrix of the stated entry type, and is about an *executable model that a driver of
+this framework runs against the real bct function* (the model of the slice that owns the routine):
 
-* per-node outputs:   `f (permA σ A) = permVec σ (f A)`
-* per-pair outputs:   `f (permA σ A) = permA σ (f A)`
-* scalars / distributions: `f (permA σ A) = f A`
-* routines that can raise: the same with `Except.map` (an error is raised for one numbering iff for all).
+* §1 `Model/Measures.lean` (this slice): `strengths_und_sign`, `density_und/dir`, `matching_ind`, `edge_nei_overlap_bu/bd`,
+  `gtom`, `flow_coef_bd`, `rich_club_bu/bd`, `assortativity_bin/wei`;
+* §2 `Model/Cluster.lean` (C09/C10): degrees, strengths, `clustering_coef_bu/bd/wu/wd`, `clustering_coef_wu_sign` (3 types),
+  `transitivity_bu/bd/wu/wd` — rational weights, the matrix of cube roots renumbered with the weights;
+* §3 `Model/Dist.lean` (C03): `distance_wei_floyd`, `distance_wei`, `distance_bin`, `breadthdist`, `reachdist`, `charpath`,
+  `efficiency_bin`, `efficiency_wei` — from "model = minimum walk length" (`IsDist`, unique) transported along σ;
+* §4 `Model/Between.lean` (C08): `betweenness_wei`, `edge_betweenness_wei`, `edge_betweenness_bin`, `betweenness_bin` — from
+  "model = sum of shortest-path fractions" (`bcSpec`, `ebcSpec`) and equivariance of the definition;
+* §5 `Model/Core.lean` (C15): `kcore_bu/bd`, `score_wu`, `kcoreness_centrality_bu/bd`;
+* §6 `Model/Comp.lean` (C16): `get_components` as a partition;
+* §7 `Model/Partition.lean` (C14): `participation_coef(_sign)`, `module_degree_zscore` (deviation and variance; the
+  square root is outside exact arithmetic);
+* §8 `Model/Walks.lean` (C18): `pagerank_centrality` (exact solve + certificate; via uniqueness of the solution), the series
+  executed for `subgraph_centrality`, the exact certificate of an eigenvector oracle for `eigenvector_centrality_und`.
 
-Hypotheses appear only where the routine's documented domain is "undirected" and the code reads the
-upper triangle (`density_und`, `assortativity_bin/wei` with flag 0): the matrix must be symmetric.
+Shapes: per-node `f (permA σ A) = permVec σ (f A)`, per-pair `= permA σ (f A)`, scalars/distributions `= f A`; routines
+that can raise: the same under `Except.map`/`Option.map` (an error for one numbering iff for all).
+Hypotheses are the routines' documented domains where the proof goes through a specification (non-negative lengths for the
+weighted distances, 0/1 matrix for the binary betweenness routines, symmetric matrix where the code reads one triangle).
 
-`gtom` is equivariant only for `nr_steps ≤ 2` (`gtom_equivariant_partial`); for `nr_steps = 3` the model
-(which replays the in-place neighbourhood expansion of the real routine) is *not* equivariant
-(`gtom_three_steps_not_equivariant`, a 5-node witness) — defect D17, recorded as a known finding.
-
-Measures that are not modelled (Dijkstra / Floyd / Brandes based, LAPACK based, `breadthdist`,
-`module_degree_zscore`, `rich_club_wu/wd`, `matching_ind_und`, local efficiencies, components) are covered
-by the search on the real code only.  For the spectral ones the exact definitions are shown equivariant
-(`subgraphSeries_equivariant`, `pagerank_equivariant`, `eigenvector_equivariant`).
+Partial: `gtom_equivariant_partial` (`nr_steps ≤ 2`; `gtom_three_steps_not_equivariant` shows the model with
+`nr_steps = 3` is not equivariant — defect D17, open known finding) and `breadthdist_equivariant_offdiag_partial`
+(ordered pairs of distinct nodes; the diagonal holds the code's "length of a cycle through the source" quirk, which the
+C03 specification leaves open — searched on the real code).
+Not modelled by any slice, search on the real code only: `efficiency_bin/wei` local variants, `rich_club_wu/wd`,
+`matching_ind_und`, the LAPACK calls themselves (`eig`, `eigh`, `solve`).
 -/
 namespace Bct.C04
 open Bct Bct.Measures
 
 variable {n : Nat} (σ : Equiv.Perm (Fin n))
 
-/-! ## degree.py, physical_connectivity.py -/
-
-theorem degrees_und_equivariant (A : AMat Int n) : degreesUnd (permA σ A) = permVec σ (degreesUnd A) :=
-  degreesUnd_perm σ A
-
-/-- `(id, od, deg)` are each renumbered -/
-theorem degrees_dir_equivariant (A : AMat Int n) :
-    degreesDir (permA σ A) = (permVec σ (degreesDir A).1, permVec σ (degreesDir A).2.1, permVec σ (degreesDir A).2.2) :=
-  degreesDir_perm σ A
-
-theorem strengths_und_equivariant (A : AMat Int n) : strengthsUnd (permA σ A) = permVec σ (strengthsUnd A) :=
-  strengthsUnd_perm σ A
-
-theorem strengths_dir_equivariant (A : AMat Int n) : strengthsDir (permA σ A) = permVec σ (strengthsDir A) :=
-  strengthsDir_perm σ A
+/-! ## §1 measures modelled in `Model/Measures.lean` -/
 
 /-- `Spos`, `Sneg` renumbered; the totals `vpos`, `vneg` unchanged -/
 theorem strengths_und_sign_equivariant (A : AMat Int n) :
@@ -64,24 +66,6 @@ theorem density_dir_invariant (A : AMat Int n) : densityDir (permA σ A) = densi
 theorem density_und_invariant (A : AMat Int n) (hA : ∀ i j, A.get i j = A.get j i) :
     densityUnd (permA σ A) = densityUnd A := densityUnd_perm σ A hA
 
-/-! ## clustering.py -/
-
-theorem clustering_coef_bu_equivariant (G : AMat Int n) : clusteringBu (permA σ G) = permVec σ (clusteringBu G) :=
-  clusteringBu_perm σ G
-theorem clustering_coef_bd_equivariant (A : AMat Int n) : clusteringBd (permA σ A) = permVec σ (clusteringBd A) :=
-  clusteringBd_perm σ A
-/-- on `W = R³` (cube roots as input) -/
-theorem clustering_coef_wu_equivariant (R : AMat Int n) : clusteringWu (permA σ R) = permVec σ (clusteringWu R) :=
-  clusteringWu_perm σ R
-theorem clustering_coef_wd_equivariant (R : AMat Int n) : clusteringWd (permA σ R) = permVec σ (clusteringWd R) :=
-  clusteringWd_perm σ R
-theorem transitivity_bu_invariant (A : AMat Int n) : transitivityBu (permA σ A) = transitivityBu A := transitivityBu_perm σ A
-theorem transitivity_bd_invariant (A : AMat Int n) : transitivityBd (permA σ A) = transitivityBd A := transitivityBd_perm σ A
-theorem transitivity_wu_invariant (R : AMat Int n) : transitivityWu (permA σ R) = transitivityWu R := transitivityWu_perm σ R
-theorem transitivity_wd_invariant (R : AMat Int n) : transitivityWd (permA σ R) = transitivityWd R := transitivityWd_perm σ R
-
-/-! ## similarity.py, flow coefficient -/
-
 /-- `Min`, `Mout`, `Mall` are renumbered on both axes (the `i < j` loop followed by `M + M.T`) -/
 theorem matching_ind_equivariant (A : AMat Int n) :
     matchingInd (permA σ A) = (permA σ (matchingInd A).1, permA σ (matchingInd A).2.1, permA σ (matchingInd A).2.2) :=
@@ -92,7 +76,8 @@ theorem edge_nei_overlap_equivariant (A : AMat Int n) :
     edgeNeiOverlap (permA σ A) = (edgeNeiOverlap A).map (permA σ) := edgeNeiOverlap_perm σ A
 
 /-- full statement (false, see `gtom_three_steps_not_equivariant`):
-`∀ s, gtom (permA σ A) s = permA σ (gtom A s)`.  Proved for `nr_steps ≤ 2`, where no in-place expansion round runs. -/
+`∀ s, gtom (permA σ A) s = permA σ (gtom A s)`.  Proved for `nr_steps ≤ 2` (0 returns the binarised matrix, 1 and 2 run no
+in-place expansion round). -/
 theorem gtom_equivariant_partial (A : AMat Int n) (s : Nat) (hs : s ≤ 2) : gtom (permA σ A) s = permA σ (gtom A s) :=
   gtom_perm_of_le_two σ A s hs
 
@@ -118,24 +103,6 @@ theorem flow_coef_bd_index_test_harmless (A : AMat Int n) (v : Fin n) :
     nanToZero (flowNode A v).1 = nanToZero (flowNodeSpec A v).1 ∧ (flowNode A v).2 = (flowNodeSpec A v).2 :=
   flowNode_eq_spec A v
 
-/-! ## centrality.py / core.py -/
-
-/-- the community vector is node data and is renumbered together with the matrix -/
-theorem participation_coef_equivariant (W : AMat Int n) (ci : Vector Nat n) :
-    participation (permA σ W) (permVec σ ci) = permVec σ (participation W ci) := participation_perm σ W ci
-
-theorem kcore_bu_equivariant (A : AMat Int n) (k : Int) :
-    kcoreBu (permA σ A) k = (kcoreBu A k).map fun r => (permA σ r.1, r.2) := kcoreBu_perm σ A k
-theorem kcore_bd_equivariant (A : AMat Int n) (k : Int) :
-    kcoreBd (permA σ A) k = (kcoreBd A k).map fun r => (permA σ r.1, r.2) := kcoreBd_perm σ A k
-theorem score_wu_equivariant (A : AMat Int n) (s : Int) :
-    scoreWu (permA σ A) s = (scoreWu A s).map fun r => (permA σ r.1, r.2) := scoreWu_perm σ A s
-/-- coreness renumbered, `kn` (size of each k-core) unchanged -/
-theorem kcoreness_centrality_bu_equivariant (A : AMat Int n) :
-    kcorenessBu (permA σ A) = (kcorenessBu A).map fun r => (permVec σ r.1, r.2) := kcorenessBu_perm σ A
-theorem kcoreness_centrality_bd_equivariant (A : AMat Int n) :
-    kcorenessBd (permA σ A) = (kcorenessBd A).map fun r => (permVec σ r.1, r.2) := kcorenessBd_perm σ A
-
 /-- `(R, Nk, Ek)` per level, including the number of levels -/
 theorem rich_club_bu_invariant (A : AMat Int n) : richClubBu (permA σ A) = richClubBu A := richClubBu_perm σ A
 theorem rich_club_bd_invariant (A : AMat Int n) : richClubBd (permA σ A) = richClubBd A := richClubBd_perm σ A
@@ -149,27 +116,188 @@ theorem assortativity_bin_und_invariant (A : AMat Int n) (hA : ∀ i j, A.get i 
 theorem assortativity_wei_und_invariant (A : AMat Int n) (hA : ∀ i j, A.get i j = A.get j i) :
     assortativityWei0 (permA σ A) = assortativityWei0 A := assortativityWei0_perm σ A hA
 
-/-! ## distance.py, efficiency.py -/
+/-- the degree / strength vectors used inside the rich-club and assortativity models are those of `Model/Cluster.lean`
+(`castQ` reads the integer matrix as a rational one): no second, unrelated definition of `degrees_und/dir`, `strengths_und` -/
+theorem degree_helpers_are_cluster (A : AMat Int n) (i : Fin n) :
+    vget (Cluster.degreesUnd (castQ A)) i = ((vget (degreesUnd A) i : Int) : Rat) ∧
+    vget (Cluster.degreesIn (castQ A)) i = ((vget (degreesDir A).1 i : Int) : Rat) ∧
+    vget (Cluster.degreesOut (castQ A)) i = ((vget (degreesDir A).2.1 i : Int) : Rat) ∧
+    vget (Cluster.degreesTot (castQ A)) i = ((vget (degTotal A) i : Int) : Rat) ∧
+    vget (Cluster.strengthsUnd (castQ A)) i = ((vget (strengthsUnd A) i : Int) : Rat) :=
+  ⟨degreesUnd_eq_cluster A i, (degreesInOut_eq_cluster A i).1, (degreesInOut_eq_cluster A i).2, degTotal_eq_cluster A i,
+    strengthsUnd_eq_cluster A i⟩
 
-theorem distance_bin_equivariant (A : AMat Int n) : distanceBin (permA σ A) = (distanceBin A).map (permA σ) :=
-  distanceBin_perm σ A
-theorem efficiency_bin_invariant (A : AMat Int n) : efficiencyBin (permA σ A) = efficiencyBin A := efficiencyBin_perm σ A
-/-- both outputs `(R, D)` -/
-theorem reachdist_equivariant (A : AMat Int n) :
-    reachdist (permA σ A) = (reachdist A).map fun r => (permA σ r.1, permA σ r.2) := reachdist_perm σ A
+/-! ## §2 degrees, strengths, clustering, transitivity (`Model/Cluster.lean`) -/
 
-/-! ## spectral measures: the exact definitions (not the eigen-solver) -/
+theorem degrees_und_equivariant (W : AMat Rat n) : Cluster.degreesUnd (permA σ W) = permVec σ (Cluster.degreesUnd W) :=
+  cl_degreesUnd_perm σ W
+/-- `id`, `od`, `deg` of `degrees_dir` -/
+theorem degrees_dir_equivariant (W : AMat Rat n) :
+    Cluster.degreesIn (permA σ W) = permVec σ (Cluster.degreesIn W) ∧
+    Cluster.degreesOut (permA σ W) = permVec σ (Cluster.degreesOut W) ∧
+    Cluster.degreesTot (permA σ W) = permVec σ (Cluster.degreesTot W) :=
+  ⟨cl_degreesIn_perm σ W, cl_degreesOut_perm σ W, cl_degreesTot_perm σ W⟩
+theorem strengths_und_equivariant (W : AMat Rat n) : Cluster.strengthsUnd (permA σ W) = permVec σ (Cluster.strengthsUnd W) :=
+  cl_strengthsUnd_perm σ W
+theorem strengths_dir_equivariant (W : AMat Rat n) : Cluster.strengthsDir (permA σ W) = permVec σ (Cluster.strengthsDir W) :=
+  cl_strengthsDir_perm σ W
 
-/-- every partial sum of `Σ_k (A^k)_{ii} / k!` (limit: `subgraph_centrality`) -/
-theorem subgraphSeries_equivariant (A : AMat Int n) (K : Nat) :
-    subgraphSeries (permA σ A) K = permVec σ (subgraphSeries A K) := subgraphSeries_perm σ A K
-/-- a solution of the PageRank system of `A` (prior `f`) renumbers to a solution of the system of the renumbered matrix -/
-theorem pagerank_equivariant (A : AMat Int n) (d : Rat) (f r : Vector Rat n) (h : IsPagerank A d f r) :
-    IsPagerank (permA σ A) d (permVec σ f) (permVec σ r) := isPagerank_perm σ A d f r h
-theorem eigenvector_equivariant (A : AMat Int n) (lam : Rat) (v : Vector Rat n) (h : IsEigvec A lam v) :
-    IsEigvec (permA σ A) lam (permVec σ v) := isEigvec_perm σ A lam v h
+theorem clustering_coef_bu_equivariant (G : AMat Rat n) : Cluster.ccBu (permA σ G) = permVec σ (Cluster.ccBu G) := ccBu_perm σ G
+theorem clustering_coef_bd_equivariant (A : AMat Rat n) : Cluster.ccBd (permA σ A) = permVec σ (Cluster.ccBd A) := ccBd_perm σ A
+/-- `R` stands for `cuberoot(W)` (any rational matrix; `C09.rootMat_sound` ties the one the driver computes to `W`) -/
+theorem clustering_coef_wu_equivariant (W R : AMat Rat n) :
+    Cluster.ccWu (permA σ W) (permA σ R) = permVec σ (Cluster.ccWu W R) := ccWu_perm σ W R
+theorem clustering_coef_wd_equivariant (W R : AMat Rat n) :
+    Cluster.ccWd (permA σ W) (permA σ R) = permVec σ (Cluster.ccWd W R) := ccWd_perm σ W R
+/-- `clustering_coef_wu_sign`, `coef_type='default'` → `(C_pos, C_neg)` -/
+theorem clustering_coef_wu_sign_default_equivariant (W Rp Rn : AMat Rat n) :
+    Cluster.ccSignDefault (permA σ W) (permA σ Rp) (permA σ Rn) =
+      (permVec σ (Cluster.ccSignDefault W Rp Rn).1, permVec σ (Cluster.ccSignDefault W Rp Rn).2) := ccSignDefault_perm σ W Rp Rn
+theorem clustering_coef_wu_sign_zhang_equivariant (W : AMat Rat n) :
+    Cluster.ccSignZhang (permA σ W) = (permVec σ (Cluster.ccSignZhang W).1, permVec σ (Cluster.ccSignZhang W).2) :=
+  ccSignZhang_perm σ W
+theorem clustering_coef_wu_sign_costantini_equivariant (W : AMat Rat n) :
+    Cluster.ccSignCost (permA σ W) = permVec σ (Cluster.ccSignCost W) := ccSignCost_perm σ W
+theorem transitivity_bu_invariant (A : AMat Rat n) : Cluster.transBu (permA σ A) = Cluster.transBu A := transBu_perm σ A
+theorem transitivity_bd_invariant (A : AMat Rat n) : Cluster.transBd (permA σ A) = Cluster.transBd A := transBd_perm σ A
+theorem transitivity_wu_invariant (W R : AMat Rat n) :
+    Cluster.transWu (permA σ W) (permA σ R) = Cluster.transWu W R := transWu_perm σ W R
+theorem transitivity_wd_invariant (W R : AMat Rat n) :
+    Cluster.transWd (permA σ W) (permA σ R) = Cluster.transWd W R := transWd_perm σ W R
 
-/-! ## non-vacuity: concrete inputs on which the renumbering really moves the outputs -/
+/-! ## §3 distances and global efficiencies (`Model/Dist.lean`) -/
+
+/-- the distance specification itself is transported by a renumbering (`permM σ L i j = L (σ i) (σ j)`) -/
+theorem isDist_equivariant {L D : Dist.LMat n} (h : Dist.IsDist L D) : Dist.IsDist (permM σ L) (permM σ D) := isDist_perm σ h
+
+/-- `distance_wei_floyd` (`SPL`; `transform` none / inv), non-negative weights -/
+theorem distance_wei_floyd_equivariant (tr : Dist.Transform) (A : AMat Rat n) (hA : C03.NonNeg A) :
+    (Dist.floyd (Dist.lenMat tr (permA σ A))).D = permA σ (Dist.floyd (Dist.lenMat tr A)).D := floyd_perm σ tr A hA
+
+/-- `distance_wei` (`D`), non-negative lengths -/
+theorem distance_wei_equivariant (tr : Dist.Transform) (A : AMat Rat n) (hA : C03.NonNeg A) :
+    (Dist.dijkstra (Dist.lenMat tr (permA σ A))).map Prod.fst = (Dist.dijkstra (Dist.lenMat tr A)).map fun r => permA σ r.1 :=
+  dijkstra_perm σ tr A hA
+
+theorem distance_bin_equivariant (A : AMat Rat n) : Dist.distBin (permA σ A) = (Dist.distBin A).map (permA σ) :=
+  distBin_perm σ A
+
+/-- full statement: `breadthdist (permA σ A) = (breadthdist A).map fun r => (permA σ r.1, permA σ r.2)`.
+Proved for ordered pairs of distinct nodes (empty diagonal, the BCT convention); the diagonal cells are outside the C03
+specification. -/
+theorem breadthdist_equivariant_offdiag_partial (A : AMat Rat n) (hdiag : ∀ i, A.get i i = 0)
+    (R R' : AMat Bool n) (D D' : AMat Dist.Ext n) (h : Dist.breadthdist A = some (R, D))
+    (h' : Dist.breadthdist (permA σ A) = some (R', D')) (i j : Fin n) (hij : i ≠ j) :
+    D'.get i j = D.get (σ i) (σ j) ∧ R'.get i j = R.get (σ i) (σ j) :=
+  breadthdist_perm_offdiag σ A hdiag R R' D D' h h' i j hij
+
+/-- `reachdist` → `(R, D)`, every cell (diagonal = shortest cycle through the node included) -/
+theorem reachdist_equivariant (A : AMat Rat n) :
+    Dist.reachdist (permA σ A) = (permA σ (Dist.reachdist A).1, permA σ (Dist.reachdist A).2) := reachdist_perm_full σ A
+
+/-- `charpath(D)` → `(lambda, efficiency)` for both flags -/
+theorem charpath_invariant (D : AMat Dist.Ext n) (incDiag incInf : Bool) :
+    Dist.charpath (permA σ D) incDiag incInf = Dist.charpath D incDiag incInf := charpath_perm σ D incDiag incInf
+
+theorem efficiency_bin_invariant (A : AMat Rat n) : Dist.efficiencyBin (permA σ A) = Dist.efficiencyBin A :=
+  efficiencyBin_perm σ A
+/-- `efficiency_wei` (global), non-negative weights -/
+theorem efficiency_wei_invariant (W : AMat Rat n) (hW : C03.NonNeg W) : Dist.efficiencyWei (permA σ W) = Dist.efficiencyWei W :=
+  efficiencyWei_perm σ W hW
+
+/-! ## §4 betweenness (`Model/Between.lean`) -/
+
+/-- the definitions (sums of fractions of minimum-length walks) are renumbered with the graph -/
+theorem betweenness_spec_equivariant (L : AMat Nat n) :
+    Between.bcSpec (permA σ L) = permVec σ (Between.bcSpec L) ∧ Between.ebcSpec (permA σ L) = permA σ (Between.ebcSpec L) :=
+  ⟨bcSpec_perm σ L, ebcSpec_perm σ L⟩
+
+/-- executed model of `edge_betweenness_wei` (`EBC`, `BC`) and `betweenness_wei` (`BC`): every connection-length matrix -/
+theorem betweenness_wei_equivariant (L : AMat Nat n) :
+    Between.brandes true (permA σ L) = (Between.brandes true L).map fun r => (permA σ r.1, permVec σ r.2) :=
+  brandes_wei_perm σ L
+
+/-- executed model of `edge_betweenness_bin` (`EBC`, `BC`) on 0/1 matrices -/
+theorem edge_betweenness_bin_equivariant (L : AMat Nat n) (hbin : ∀ i j, L.get i j ≤ 1) :
+    Between.brandes false (permA σ L) = (Between.brandes false L).map fun r => (permA σ r.1, permVec σ r.2) :=
+  brandes_bin_perm σ L hbin
+
+/-- executed model of `betweenness_bin` (matrix powers + back-propagation) on 0/1 matrices with empty diagonal -/
+theorem betweenness_bin_equivariant (L : AMat Nat n) (hbin : ∀ i j, L.get i j ≤ 1) (hdiag : ∀ i, L.get i i = 0) :
+    Between.betweennessBin (permA σ L) = (Between.betweennessBin L).map (permVec σ) := betweennessBin_perm σ L hbin hdiag
+
+/-! ## §5 cores (`Model/Core.lean`) -/
+
+/-- result matrix renumbered, `kn` unchanged -/
+theorem kcore_bu_equivariant (A : AMat Int n) (k : Nat) :
+    (Core.kcoreBu (permA σ A) k).M = permA σ (Core.kcoreBu A k).M ∧ (Core.kcoreBu (permA σ A) k).kn = (Core.kcoreBu A k).kn :=
+  core_kcoreBu_perm σ A k
+theorem kcore_bd_equivariant (A : AMat Int n) (k : Nat) :
+    (Core.kcoreBd (permA σ A) k).M = permA σ (Core.kcoreBd A k).M ∧ (Core.kcoreBd (permA σ A) k).kn = (Core.kcoreBd A k).kn :=
+  core_kcoreBd_perm σ A k
+theorem score_wu_equivariant (A : AMat Rat n) (s : Rat) :
+    (Core.scoreWu (permA σ A) s).M = permA σ (Core.scoreWu A s).M ∧ (Core.scoreWu (permA σ A) s).kn = (Core.scoreWu A s).kn :=
+  core_scoreWu_perm σ A s
+/-- coreness renumbered, `kn` (size of each k-core) unchanged -/
+theorem kcoreness_centrality_bu_equivariant (A : AMat Int n) :
+    (∀ v, (Core.kcorenessBu (permA σ A)).1 v = (Core.kcorenessBu A).1 (σ v)) ∧
+      (Core.kcorenessBu (permA σ A)).2 = (Core.kcorenessBu A).2 := core_kcorenessBu_perm σ A
+theorem kcoreness_centrality_bd_equivariant (A : AMat Int n) :
+    (∀ v, (Core.kcorenessBd (permA σ A)).1 v = (Core.kcorenessBd A).1 (σ v)) ∧
+      (Core.kcorenessBd (permA σ A)).2 = (Core.kcorenessBd A).2 := core_kcorenessBd_perm σ A
+
+/-! ## §6 components (`Model/Comp.lean`) -/
+
+/-- `get_components` as a partition: two nodes of the renumbered graph share a label iff the nodes they stand for do -/
+theorem get_components_equivariant (A : AMat Int n) (hsym : Comp.isSymm A = true) (x y : Fin n) :
+    C16.labelFn (permA σ A) x = C16.labelFn (permA σ A) y ↔ C16.labelFn A (σ x) = C16.labelFn A (σ y) :=
+  components_perm σ A hsym x y
+
+/-- asymmetric input is rejected for every numbering -/
+theorem get_components_rejects_equivariant (A : AMat Int n) (h : Comp.isSymm A = false) :
+    Comp.getComponents (permA σ A) = .error .param ∧ Comp.getComponents A = .error .param := getComponents_error_perm σ A h
+
+/-! ## §7 partition consumers (`Model/Partition.lean`); `ci` is node data and is renumbered with the matrix -/
+
+theorem participation_coef_equivariant (W : AMat Rat n) (c : Vector Int n) :
+    Partition.partCoef (permA σ W) (permVec σ c) = permVec σ (Partition.partCoef W c) := partCoef_perm σ W c
+theorem participation_coef_sign_equivariant (W : AMat Rat n) (c : Vector Int n) :
+    Partition.partCoefSign (permA σ W) (permVec σ c) =
+      (permVec σ (Partition.partCoefSign W c).1, permVec σ (Partition.partCoefSign W c).2) := partCoefSign_perm σ W c
+/-- `module_degree_zscore` (all flags): per node the pair (deviation from the module mean, module variance); `Z` is their
+quotient after a square root -/
+theorem module_degree_zscore_equivariant (W : AMat Rat n) (c : Vector Int n) (flag : Nat) :
+    Partition.zIngr (permA σ W) (permVec σ c) flag = permVec σ (Partition.zIngr W c flag) := zIngr_perm σ W c flag
+
+/-! ## §8 spectral measures (`Model/Walks.lean`); LAPACK itself is not modelled -/
+
+/-- `pagerank_centrality`: the model solves the linear system exactly (Gaussian elimination, certified).  When it returns for
+both numberings (weights ≥ 0, no empty column, `0 ≤ d < 1`, prior renumbered with the graph) the vectors correspond —
+through uniqueness of the solution (`C18.pagerank_unique`), not through the elimination order. -/
+theorem pagerank_equivariant (A : Walks.QMat n) (d : Rat) (f : Option (Vector Int n)) (o o' : Walks.PrOut n)
+    (h : Walks.pagerank A d f = .ok o) (h' : Walks.pagerank (permA σ A) d (f.map (permVec σ)) = .ok o')
+    (hA : ∀ i j, 0 ≤ A.get i j) (hdeg : ∀ j, ∑ i, A.get i j ≠ 0) (hd0 : 0 ≤ d) (hd1 : d < 1) :
+    o'.r = permVec σ o.r := pagerank_perm σ A d f o o' h h' hA hdeg hd0 hd1
+
+/-- the series `Σ_{m<T} (A^m)_{ii}/m!` that the driver evaluates for `subgraph_centrality` (C18 proves it equal to the
+spectral formula for every orthonormal eigenbasis, so no basis of a degenerate eigenspace can matter) -/
+theorem subgraph_series_equivariant (A : AMat Int n) (T : Nat) : Walks.expDiag (permA σ A) T = permVec σ (Walks.expDiag A T) :=
+  expDiag_perm σ A T
+
+/-- `eigenvector_centrality_und`: the eigen-solver is an oracle; the certificate that the driver computes for the vector
+it returns (‖v‖², Rayleigh quotient, squared residual, min v, Collatz–Wielandt bounds) is unchanged when matrix and vector
+are renumbered together, and an exact eigenvector renumbers to an eigenvector -/
+theorem eigenvector_certificate_invariant (A : AMat Int n) (v : Walks.QVec n) :
+    Walks.eigCert (permA σ A) (permVec σ v) = Walks.eigCert A v := eigCert_perm σ A v
+theorem eigenvector_equivariant (A : AMat Int n) (lam : Rat) (v : Walks.QVec n)
+    (h : ∀ i : Fin n, Walks.mulVecQ A v i = lam * v[i]) :
+    ∀ i : Fin n, Walks.mulVecQ (permA σ A) (permVec σ v) i = lam * (permVec σ v)[i] := eigvec_perm σ A lam v h
+
+/-! ## non-vacuity: concrete inputs on which the renumbering really moves the outputs and the hypotheses hold -/
+
+/-- `okB x p`: `x` returned a value and `p` holds for it -/
+def okB {ε α : Type} (x : Except ε α) (p : α → Bool) : Bool := match x with | .ok a => p a | .error _ => false
+def someB {α : Type} (x : Option α) (p : α → Bool) : Bool := match x with | some a => p a | none => false
 
 /-- a directed 4-node graph without symmetry: 0→1, 0→2, 1→2, 2→0, 3→0, 2→3 (weights 1,2,1,3,1,2) -/
 def G4 : AMat Int 4 := AMat.ofFn fun i j =>
@@ -180,52 +308,66 @@ def U4 : AMat Int 4 := AMat.ofFn fun i j =>
   match i.val, j.val with
   | 0, 1 => 2 | 1, 0 => 2 | 0, 2 => 1 | 2, 0 => 1 | 1, 2 => 1 | 2, 1 => 1 | 2, 3 => 1 | 3, 2 => 1 | _, _ => 0
 def s4 : Equiv.Perm (Fin 4) := Equiv.swap 0 3
-def ci4 : Vector Nat 4 := #v[5, 3, 5, 9]
-
-/-- `okB x p`: `x` returned a value and `p` holds for it -/
-def okB {ε α : Type} (x : Except ε α) (p : α → Bool) : Bool := match x with | .ok a => p a | .error _ => false
-
 /-- a directed 3-node graph: 0→1, 1→2, 2→0, 0→2 -/
 def G3 : AMat Int 3 := AMat.ofFn fun i j =>
   match i.val, j.val with
   | 0, 1 => 1 | 1, 2 => 1 | 2, 0 => 1 | 0, 2 => 1 | _, _ => 0
-/-- the undirected path 0-1-2 with weights 2, 1 -/
-def U3 : AMat Int 3 := AMat.ofFn fun i j =>
-  match i.val, j.val with
-  | 0, 1 => 2 | 1, 0 => 2 | 1, 2 => 1 | 2, 1 => 1 | _, _ => 0
 def s3 : Equiv.Perm (Fin 3) := Equiv.swap 0 1
+/-- the same graphs with rational / natural entries for the models of the other slices -/
+def Q4 : AMat Rat 4 := castQ U4
+def D3 : AMat Rat 3 := castQ G3
+def N3 : AMat Nat 3 := AMat.ofFn fun i j => (G3.get i j).toNat
+def c4 : Vector Int 4 := #v[5, 3, 5, 9]
 
 example : ∀ i j, U4.get i j = U4.get j i := by decide +kernel
-example : permA s4 G4 ≠ G4 ∧ permA s4 U4 ≠ U4 ∧ permA s3 G3 ≠ G3 ∧ permA s3 U3 ≠ U3 := by decide +kernel
-example : degreesUnd (permA s4 U4) ≠ degreesUnd U4 := by decide +kernel
-example : (degreesDir (permA s4 G4)).1 ≠ (degreesDir G4).1 := by decide +kernel
-example : strengthsUnd (permA s4 U4) ≠ strengthsUnd U4 ∧ strengthsDir (permA s4 G4) ≠ strengthsDir G4 := by decide +kernel
+example : permA s4 G4 ≠ G4 ∧ permA s4 U4 ≠ U4 ∧ permA s3 G3 ≠ G3 := by decide +kernel
+-- §1
 example : (strengthsUndSign (permA s4 U4)).1 ≠ (strengthsUndSign U4).1 := by decide +kernel
 example : okB (densityDir G4) (fun r => r.2.2 == 6) = true ∧ okB (densityUnd U4) (fun r => r.2.2 == 4) = true := by decide +kernel
-example : clusteringBu (permA s4 U4) ≠ clusteringBu U4 := by decide +kernel
-example : clusteringBd (permA s4 G4) ≠ clusteringBd G4 := by decide +kernel
-example : clusteringWd (permA s4 G4) ≠ clusteringWd G4 := by decide +kernel
-example : clusteringWu (permA s4 U4) ≠ clusteringWu U4 := by decide +kernel
-example : transitivityBu U4 ≠ .nan ∧ transitivityBd G4 ≠ .nan ∧ transitivityWu U4 ≠ .nan ∧ transitivityWd G4 ≠ .nan := by decide +kernel
 example : (matchingInd (permA s3 G3)).2.2 ≠ (matchingInd G3).2.2 := by decide +kernel
 example : okB (edgeNeiOverlap U4) (fun a => okB (edgeNeiOverlap (permA s4 U4)) fun b => decide (a ≠ b)) = true := by decide +kernel
-example : gtom (permA s4 U4) 2 ≠ gtom U4 2 := by decide +kernel
+example : gtom (permA s4 U4) 2 ≠ gtom U4 2 ∧ gtom (permA s4 U4) 0 ≠ gtom U4 0 := by decide +kernel
 example : (flowCoef (permA s3 G3)).2 ≠ (flowCoef G3).2 := by decide +kernel
-example : participation (permA s4 U4) (permVec s4 ci4) ≠ participation U4 ci4 := by decide +kernel
-example : okB (kcoreBu U4 2) (fun a => decide (a.2 = 3 ∧ a.1 ≠ U4)) = true := by decide +kernel
-example : okB (kcoreBd U4 3) (fun a => a.2 == 3) = true ∧ okB (scoreWu U4 2) (fun b => b.2 == 3) = true := by decide +kernel
-example : okB (kcorenessBu U3) (fun a => decide (a.1 = #v[1, 1, 1])) = true := by decide +kernel
-example : okB (kcorenessBd G3) (fun a => decide (a.1 = #v[2, 2, 2])) = true := by decide +kernel
 example : (richClubBu U4).length = 3 ∧ (richClubBd G4).length = 4 := by decide +kernel
 example : okB (assortativityBin U4 0) (fun r => decide (r ≠ .nan)) = true ∧ okB (assortativityBin G4 1) (fun r => decide (r ≠ .nan)) = true ∧
     assortativityWei0 U4 ≠ .nan := by decide +kernel
-example : okB (distanceBin G3) (fun a => okB (distanceBin (permA s3 G3)) fun b => decide (a ≠ b)) = true := by decide +kernel
-example : okB (efficiencyBin G3) (fun e => decide (e ≠ .nan ∧ e ≠ .fin 0)) = true := by decide +kernel
-example : okB (reachdist G3) (fun a => okB (reachdist (permA s3 G3)) fun b => decide (a.2 ≠ b.2)) = true := by decide +kernel
-example : subgraphSeries (permA s3 U3) 3 ≠ subgraphSeries U3 3 := by decide +kernel
-/-- the 2-cycle: PageRank (1/2, 1/2) for d = 1/2 and eigenvector (1, 1) for eigenvalue 1 exist, so the hypotheses are satisfiable -/
+-- §2
+example : Cluster.degreesUnd (permA s4 Q4) ≠ Cluster.degreesUnd Q4 ∧ Cluster.strengthsDir (permA s3 D3) ≠ Cluster.strengthsDir D3 := by
+  decide +kernel
+example : Cluster.ccBu (permA s4 Q4) ≠ Cluster.ccBu Q4 ∧ Cluster.ccBd (permA s3 D3) ≠ Cluster.ccBd D3 := by decide +kernel
+example : Cluster.ccWu (permA s4 Q4) (permA s4 Q4) ≠ Cluster.ccWu Q4 Q4 ∧ Cluster.ccSignCost (permA s4 Q4) ≠ Cluster.ccSignCost Q4 := by
+  decide +kernel
+example : Cluster.transBu Q4 ≠ none ∧ Cluster.transBd D3 ≠ none := by decide +kernel
+-- §3
+example : C03.NonNeg D3 ∧ (∀ i, D3.get i i = 0) := by decide +kernel
+example : (Dist.floyd (Dist.lenMat .none (permA s3 D3))).D ≠ (Dist.floyd (Dist.lenMat .none D3)).D := by decide +kernel
+example : someB (Dist.dijkstra (Dist.lenMat .none D3)) (fun r => r.1.get 1 0 == .fin 2) = true := by decide +kernel
+example : someB (Dist.distBin D3) (fun a => someB (Dist.distBin (permA s3 D3)) fun b => decide (a ≠ b)) = true := by decide +kernel
+example : someB (Dist.breadthdist D3) (fun r => r.2.get 1 0 == .fin 2) = true ∧
+    someB (Dist.breadthdist (permA s3 D3)) (fun r => r.2.get 0 1 == .fin 2) = true := by decide +kernel
+example : (Dist.reachdist (permA s3 D3)).2 ≠ (Dist.reachdist D3).2 := by decide +kernel
+example : Dist.efficiencyBin D3 ≠ none ∧ Dist.efficiencyWei D3 ≠ none := by decide +kernel
+-- §4
+example : (∀ i j, N3.get i j ≤ 1) ∧ (∀ i, N3.get i i = 0) := by decide +kernel
+example : Between.bcSpec (permA s3 N3) ≠ Between.bcSpec N3 := by decide +kernel
+example : okB (Between.brandes true N3) (fun r => decide (r.2 = Between.bcSpec N3)) = true ∧
+    okB (Between.betweennessBin N3) (fun r => decide (r = Between.bcSpec N3)) = true := by decide +kernel
+-- §5
+example : (Core.kcoreBu U4 2).kn = 3 ∧ (Core.kcoreBu (permA s4 U4) 2).M ≠ (Core.kcoreBu U4 2).M := by decide +kernel
+example : (Core.kcorenessBu U4).1 0 ≠ (Core.kcorenessBu U4).1 3 := by decide +kernel
+-- §6
+example : Comp.isSymm U4 = true ∧ Comp.isSymm G4 = false := by decide +kernel
+-- §7
+example : Partition.partCoef (permA s4 Q4) (permVec s4 c4) ≠ Partition.partCoef Q4 c4 := by decide +kernel
+example : Partition.relabel (permVec s4 c4) ≠ Partition.relabel c4 ∧ Partition.numMods c4 = 3 := by decide +kernel
+-- §8
+example : okB (Walks.pagerank Q4 (1 / 2) none) (fun o => okB (Walks.pagerank (permA s4 Q4) (1 / 2) none) fun o' =>
+    decide (o'.r ≠ o.r)) = true := by decide +kernel
+example : (∀ i j, 0 ≤ Q4.get i j) ∧ (∀ j, ∑ i, Q4.get i j ≠ 0) := by decide +kernel
+example : Walks.expDiag (permA s4 U4) 3 ≠ Walks.expDiag U4 3 := by decide +kernel
+/-- K₂ has the eigenvector (1, 1) for the eigenvalue 1 -/
 def K2 : AMat Int 2 := AMat.ofFn fun i j => if i = j then 0 else 1
-example : IsEigvec K2 1 #v[1, 1] := by unfold IsEigvec; decide +kernel
-example : IsPagerank K2 (1 / 2) #v[1, 1] #v[1 / 2, 1 / 2] := ⟨#v[1 / 2, 1 / 2], by decide +kernel, by decide +kernel⟩
+example : ∀ i : Fin 2, Walks.mulVecQ K2 #v[1, 1] i = 1 * (#v[1, 1] : Walks.QVec 2)[i] := by decide +kernel
+example : okB (Walks.eigCert K2 #v[1, 1]) (fun c => c.res2 == 0) = true := by decide +kernel
 
 end Bct.C04
